@@ -2,7 +2,10 @@ use super::job_queue::*;
 use super::queue_state::*;
 
 use std::sync::*;
+#[cfg(desync_verif)] use vsched::sync::{Mutex, Condvar};
+#[cfg(not(desync_verif))]
 use std::thread::{Thread};
+#[cfg(desync_verif)] use vsched::thread::{Thread};
 use futures::task::{ArcWake};
 
 ///
